@@ -68,6 +68,21 @@ def families():
         E = TEnum("E", [("A", []), ("B", [T])])
         return main_fn(P(T), [], Match(EnumLit(E, "B", [L(T, 5, a)]), [(PEnum(E, "B", [PVar("v")]), Bin("+", Var("v", T), x(T))), (PEnum(E, "A", []), x(T))], T), enums=[E])
     fam.append(("enum-payload-literal", enum_lit))
+    fam.append(("fn-return-literal", lambda T, a: main_fn(P(T), [], Bin("+", Call("f", [x(T)], T), x(T)),
+                                                          fns=[FnDef("f", [("p", T, False)], T, Block([Let(PVar("q"), Var("p", T))], L(T, 5, a)))])))
+    fam.append(("nested-tuple-literal", lambda T, a: main_fn(P(T), [Let(PVar("t"), TupLit([TupLit([L(T, 5, a), L(T, 6, a)]), Lit(BOOL, 1)]))],
+                                                             Bin("+", TupGet(TupGet(Var("t", TTup([TTup([T, T]), BOOL])), 0), 1), x(T)))))
+    fam.append(("array-of-tuples-literal", lambda T, a: main_fn(P(T), [Let(PVar("arr"), ArrLit([TupLit([L(T, 1, a), Lit(BOOL, 1)]), TupLit([L(T, 2, a), Lit(BOOL, 0)])]))],
+                                                                Bin("+", TupGet(Index(Var("arr", TArr(TTup([T, BOOL]), 2)), Lit(USIZE, 1, suffix=a)), 0), x(T)))))
+
+    def struct_let_field(T, a):
+        S = TStruct("S", [("a", T), ("b", BOOL)])
+        return main_fn(P(T), [Let(PVar("v"), L(T, 5, a), annot=T if a else None), Let(PVar("s"), StructLit(S, [("a", Var("v", T)), ("b", Lit(BOOL, 1))]))],
+                       Bin("+", x(T), Var("v", T)), structs=[S])
+    fam.append(("struct-let-field", struct_let_field))
+    fam.append(("loop-literal-array", lambda T, a: main_fn(P(T), [LetMut("acc", x(T)), For(PVar("i"), ArrLit([L(T, 1, a), L(T, 2, a), L(T, 3, a)]), [Assign("acc", T, [], Var("i", T), "^")])], Var("acc", T))))
+    fam.append(("assign-literal", lambda T, a: main_fn(P(T), [LetMut("y", x(T)), Assign("y", T, [], L(T, 7, a))], Bin("+", Var("y", T), x(T)))))
+    fam.append(("opassign-literal", lambda T, a: main_fn(P(T), [LetMut("y", x(T)), Assign("y", T, [], L(T, 7, a), "^")], Var("y", T))))
     fam.append(("range-loop", lambda T, a: None if T.signed else main_fn(P(T), [LetMut("acc", x(T)), For(PVar("i"), Range(0, 3, T, suffix=a), [Assign("acc", T, [], Var("i", T), "^")])], Var("acc", T))))
     fam.append(("range-return", lambda T, a: None if T.signed else main_fn(P(T), [], Range(2, 5, T, suffix=a))))
     fam.append(("neg-literal", lambda T, a: main_fn(P(T), [Let(PVar("y"), L(T, -5, a), annot=T if a else None)], Bin("+", Var("y", T), x(T))) if T.signed else None))
